@@ -85,7 +85,7 @@ def sys_job(exe, mode, sc, passes, ops, ops2="", deadline=600, extra=None):
     # on-demand polls while a frontend waits for the backend: one per statement that may be cached (a poll below the soft
     # limit writes one statement) plus a few
     if extra is None:
-        extra = (len(ops.split(",")) + len(ops2.split(",")) + 4) if ("f" in ops or "f" in ops2) else 0
+        extra = len(ops.split(",")) + len(ops2.split(",")) + 4
     args = ["--mode", mode, "--sc", sc, "--passes", passes, "--extra", extra, "--ops", ops, "--deadline", deadline]
     if ops2:
         args += ["--ops2", ops2]
